@@ -43,6 +43,25 @@ theorem GTr.wrapErrR {s0 : State} {m : EvalM RVal} (hm : GTr I s0 m) (g : State 
   | err v msg p t s2 => exact fun h => I.keep h (hg s2)
   | fail f s2 => exact id
 
+theorem obs_restoreVars (env : EnvId) (hidden : List (String × RVal)) (s : State) : obs (restoreVars env hidden s) = obs s := by
+  unfold restoreVars
+  exact obs_foldl (fun s (xv : String × RVal) => s.put env xv.1 xv.2) (fun _ _ => rfl) hidden s
+
+theorem GTr.wrapForR {s0 : State} {m : EvalM RVal} (hm : GTr I s0 m) (h g : State → State → State)
+    (hh : ∀ s1 s, obs (h s1 s) = obs s) (hg : ∀ s1 s, obs (g s1 s) = obs s) :
+    GTr I s0 (fun s1 =>
+      match m s1 with
+      | .ok v s2 => .ok v (h s1 s2)
+      | .err v msg p t s2 => .err v msg p t (g s1 s2)
+      | other => other) := by
+  refine ⟨fun s1 hs1 => ?_⟩
+  have h' := hm.run s1 hs1
+  revert h'
+  cases m s1 with
+  | ok a s2 => exact fun h' => I.keep h' (hh s1 s2)
+  | err v msg p t s2 => exact fun h' => I.keep h' (hg s1 s2)
+  | fail f s2 => exact id
+
 /-- `let s ← getS`, keeping the fact that `s` is the current state -/
 theorem GTr.getS_bind_at {β} {s0 : State} {f : State → EvalM β}
     (hf : ∀ s, I.R s0 s → GPost I s0 (f s s)) : GTr I s0 (Ckl.getS >>= f) := ⟨fun s hs => hf s hs⟩
